@@ -292,16 +292,16 @@ Proof.
   intros Ha. unfold try_restarted. rewrite Ha.
   destruct (a_children a); [|intros H; inversion H; subst; eapply RR_quiet; [eassumption|apply idf_refl|reflexivity]].
   destruct (a_st a); try (intros H; inversion H; subst; eapply RR_quiet; [eassumption|apply idf_refl|reflexivity]).
-  destruct (handle roles s u0 TT 0%nat snd) as [[s1 o1] p1] eqn:E1. unfold bind at 1. destruct p1.
+  destruct (provide s (a_tok a)) as [s0 inst] eqn:Ep.
+  assert (G0 : get s0 u0 = Some a) by (unfold provide in Ep; inversion Ep; subst; exact Ha).
+  destruct (handle roles s0 u0 TT 0%nat snd) as [[s1 o1] p1] eqn:E1. unfold bind at 1. destruct p1.
   - intros H; inversion H; subst. eapply RR_handle; eassumption.
-  - destruct (RR_of_handle_seq _ _ _ _ _ _ _ Ha E1) as (a1 & G1 & T1 & I1 & B1).
+  - destruct (RR_of_handle_seq _ _ _ _ _ _ _ G0 E1) as (a1 & G1 & T1 & I1 & B1).
     destruct (handle roles s1 u0 TTS 0%nat snd) as [[s2 o2] p2] eqn:E2. unfold bind. destruct p2.
     + intros H; inversion H; subst. eapply RR_seq; [exact T1|exact I1|exact B1|eapply RR_handle; eassumption].
     + destruct (RR_of_handle_seq _ _ _ _ _ _ _ G1 E2) as (a2 & G2 & T2 & I2 & B2). rewrite T1, I1 in B2.
-      destruct (provide s2 (a_tok a)) as [s3 inst] eqn:Ep.
-      assert (G3 : get s3 u0 = Some a2) by (unfold provide in Ep; inversion Ep; subst; exact G2).
-      set (s4 := upd_actor s3 u0 (fun b => w_st Alive (w_inst inst b))).
-      assert (G4 : get s4 u0 = Some (w_st Alive (w_inst inst a2))) by (exact (get_upd_actor_same s3 u0 (fun b => w_st Alive (w_inst inst b)) a2 G3)).
+      set (s4 := upd_actor s2 u0 (fun b => w_st Alive (w_inst inst b))).
+      assert (G4 : get s4 u0 = Some (w_st Alive (w_inst inst a2))) by (exact (get_upd_actor_same s2 u0 (fun b => w_st Alive (w_inst inst b)) a2 G2)).
       set (s5 := deliver_sys s4 (a_tok a) (a_tok a) SResume).
       destruct (idf_get _ _ _ (id_deliver_sys s4 (a_tok a) (a_tok a) SResume) G4) as (a5 & G5 & T5 & I5).
       cbn [a_tok a_inst w_st w_inst] in T5, I5.
